@@ -67,3 +67,43 @@ def run_crash(ctx, ok_drv, mix, args, prop_of_oracle):
                                   {"how": "driver wal over the disk trace recorded by harness crash -seed %d -mix %s" % (ctx.seed, mix), "event": m[-1][:400], "message": m[0][:1000]})
         except Break as b:
             ctx.breaks.append(b)
+
+
+def run_small(ctx, ok_drv, sub, prop, args):
+    """crashkv / crashsimple: prefix-state oracle on crash images + recorded trace against the WAL model."""
+    tr = os.path.join(ctx.scratch, sub + ".txt")
+    rc, err = ctx.harness([sub, "-seed", str(ctx.seed)] + args, tr, timeout=6000)
+    if rc != 0:
+        ctx.breaks.append(Break("correspondence", "harness %s failed to run" % sub, err[-2000:]))
+        return
+    lines = open(tr).read().splitlines()
+    cov = ctx.cov
+    cur_ops = []
+    for l in lines:
+        if l.startswith("# kv workload") or l.startswith("# simple workload"):
+            cur_ops = [l]
+        elif l.startswith("# op "):
+            cur_ops.append(l[:300])
+        elif l.startswith("crashsum "):
+            m = dict(x.split("=") for x in l.split()[1:])
+            cov["crash_points_available"] = cov.get("crash_points_available", 0) + int(m["crashpoints"])
+            cov["crash_images_recovered_and_compared"] = cov.get("crash_images_recovered_and_compared", 0) + int(m["checked"])
+            cov["distinct_recovered_states"] = cov.get("distinct_recovered_states", 0) + int(m["distinct-recovered-states"])
+            cov["evaluations"] += int(m["checked"])
+        elif l.startswith("# ORACLE " + prop + " "):
+            f = l.split(" ", 4)
+            ctx.add_violation("crash:" + f[3], (f[4] if len(f) > 4 else "")[:600],
+                              {"how": "harness %s -seed %d %s" % (sub, ctx.seed, " ".join(args)), "oracle": l[:3000], "workload": cur_ops[:200]})
+    wt = os.path.join(ctx.scratch, "wt-%s.txt" % sub)
+    with open(wt, "w") as f:
+        f.write("\n".join(l for l in lines if l.startswith("wt ")) + "\n")
+    if ok_drv:
+        try:
+            n, mism, _ = ctx.driver("wal", wt)
+            cov["wal_trace_events_mapped_to_model_steps"] = cov.get("wal_trace_events_mapped_to_model_steps", 0) + n
+            if mism:
+                ctx.breaks.append(Break("correspondence", "the recorded disk trace does not follow the WAL protocol model", "\n".join(mism[:8])))
+                m = mism[0].split(" :: ")
+                ctx.add_violation("wal-protocol:" + " ".join(m[0].split()[1:6]), m[0][:500], {"how": "driver wal over the trace of harness " + sub, "message": m[0][:1000]})
+        except Break as b:
+            ctx.breaks.append(b)
